@@ -314,6 +314,9 @@ pub fn block_on<F: Future>(future: F) -> F::Output {
         // free-running mode: poll everything round-robin; virtual processes exit with status 0 when nothing else moves
         loop {
             if drain(&mut main, &mut out) {
+                let r = rt();
+                let leaked: Vec<usize> = r.procs.iter().enumerate().filter(|(_, p)| !p.reaped).map(|(i, _)| i).collect();
+                log(&format!("exit_procs_unreaped={:?}", leaked));
                 return out.unwrap();
             }
             let r = rt();
